@@ -429,7 +429,13 @@ fn run_resource_opt(dep0: u32, fb: Option<u32>, fl: bool, events: &[String]) -> 
                 // `u`: the resource is read under a new suspense boundary that lives in a new child scope;
                 // `y`: the oldest such scope is disposed (the boundary the resource remembers is gone)
                 if e == "u" { if alive { readers.borrow_mut().push(create_child_scope(|| { let _ = create_suspense_scope(|| {
-                    if rd { let me = try_use_context::<SuspenseScope>().expect("suspense scope in context"); reader_sel.borrow_mut().push(me.is_loading()); }
+                    if rd {
+                        let me = try_use_context::<SuspenseScope>().expect("suspense scope in context");
+                        let sel = me.is_loading();
+                        reader_sel.borrow_mut().push(sel);
+                        // an observer of the boundary's loading state that looks at the resource whenever the boundary loads
+                        create_effect(move || { if sel.get() { let _ = res.get_clone(); } });
+                    }
                     let _ = res.get_clone(); }); })); } }
                 else if e == "y" { if !readers.borrow().is_empty() { let h = readers.borrow_mut().remove(0); if rd && !reader_sel.borrow().is_empty() { reader_sel.borrow_mut().remove(0); } h.dispose(); } }
                 else if e == "x" { scope.dispose(); }
